@@ -30,6 +30,8 @@ CLAIMED.update({
          "kernel: for-all within the length bound; expressions: one solver-chosen representative per path (text is pinned before parsing); floats/datetimes from catalogues; PROV-N-inexpressible records (identified/attributed specialization, alternate, membership, mention) excluded"),
  "C15": ("(i) SMT kernels: for every identifier / label / attribute value / attribute name / URI of <=N code points, the label and URL strings the real prov.dot code passes to pydot are single well-formed DOT IDs (Graphviz scanner rules for quoted strings; HTML-like labels whose markup skeleton is exactly the template's and whose entity-decoded data is exactly the source) - one z3 query per call site covering all strings; (ii) path-complete exploration of prov_to_dot over documents x 16 option combinations x directions, each witness rendered by real pydot and parsed by Graphviz (dot -Tdot_json) and checked for nodes/clusters/edge paths/annotations", "4/C15",
          "kernels: for-all within N (quoted 6/12, HTML 3/6); structure: one representative per path, Graphviz 2.43 as acceptance oracle; hostile label/value texts from a catalogue; one known finding (top-level node drawn inside a bundle cluster)"),
+ "C14": ("path-complete exploration of prov_to_graph / graph_to_prov: the solver enumerates every combination of relation kind, declared / undeclared / coinciding endpoints, one-ended relations, identified relations, repeated identifiers and two element kinds under one identifier within the bounds; on each path the real networkx graph is checked (nodes, inferred nodes, one directed edge per two-ended relation, inverse conversion = unified elements + those relations, strict multiset)", "4/C14",
+         "PATH_COMPLETE: names are concrete catalogue values (networkx hashes nodes); bounds: 3-5 elements, <=2 relations (15 kinds alone, 4 pairs; all 120 pairs in thorough)"),
 })
 NA = {}
 props = [json.loads(l) for l in open(os.path.join(V, "properties.jsonl"))]
